@@ -1152,19 +1152,20 @@ theorem download_spec {hash : Bytes → Digest} (env : Env) (henv : env.hash = h
           (dlFoot_touch_ftr d _)) (dlFoot_pwrites d 0 _)) hW1f) (dlFoot_rm d)
       have hP : get (run (W0 ++ [Effect.touch (.pfile d), .ftr (.pfile d) data.length] ++
           pwrites (.pfile d) 0 (env.chunk data) ++ W1 ++ [.rm (.part d 0)]) st) (.pfile d) = some (.raw data) := by
-        rw [run_append, get_apply_of_not_written (e := .rm (.part d 0)) (by simp [writes])] 
-        · rw [run_append]
-          subst hW1
-          rw [pfile_not_written_by_rec, run_append]
-          have h0 : get (run (W0 ++ [Effect.touch (.pfile d), .ftr (.pfile d) data.length]) st) (.pfile d)
-              = some (.raw (resize bs data.length)) := by
-            rw [run_append]
-            apply get_touch_ftr
-            subst hW0
-            unfold pfileBytes at hbs ⊢
-            rw [pfile_not_written_by_rec]; exact hbs
-          rw [run_pwrites _ _ _ _ _ h0, overlayAll_eq _ _ _ (by omega), hchunk]
-          simp [length_resize]
+        rw [run_append, get_run_of_not_written (es := [Effect.rm (.part d 0)])
+          (by intro e he; simp at he; subst he; simp [writes])]
+        rw [run_append]
+        subst hW1
+        rw [pfile_not_written_by_rec, run_append]
+        have h0 : get (run (W0 ++ [Effect.touch (.pfile d), .ftr (.pfile d) data.length]) st) (.pfile d)
+            = some (.raw (resize bs data.length)) := by
+          rw [run_append]
+          apply get_touch_ftr
+          subst hW0
+          unfold pfileBytes at hbs ⊢
+          rw [pfile_not_written_by_rec]; exact hbs
+        rw [run_pwrites _ _ _ _ _ h0, overlayAll_eq _ _ _ (by omega), hchunk]
+        simp [length_resize]
       have := download_core d data hd st habs _ hS hF hP
       exact ⟨this.1, this.2.1, fun _ => this.2.2.1, this.2.2.2⟩
   | some c =>
@@ -1180,9 +1181,8 @@ theorem download_spec {hash : Bytes → Digest} (env : Env) (henv : env.hash = h
       · simp only [hc, ↓reduceIte, List.append_nil]
         have hP : get (run ([Effect.touch (.pfile d), .ftr (.pfile d) r.size] ++ [.rm (.part d 0)]) st) (.pfile d)
             = some (.raw data) := by
-          rw [run_append]
-          simp only [run]
-          rw [get_apply_of_not_written (by simp [writes]), h0]
+          rw [run_append, get_run_of_not_written (es := [Effect.rm (.part d 0)])
+            (by intro e he; simp at he; subst he; simp [writes]), h0]
           have h1 : (resize bs r.size).take r.size = resize bs r.size :=
             List.take_of_length_le (by rw [length_resize]; exact Nat.le_refl _)
           have h2 : data.take r.size = data := List.take_of_length_le (by omega)
@@ -1211,9 +1211,8 @@ theorem download_spec {hash : Bytes → Digest} (env : Env) (henv : env.hash = h
         have hP : get (run ([Effect.touch (.pfile d), .ftr (.pfile d) r.size] ++
             (pwrites (.pfile d) (r.off + r.completed) (env.chunk body) ++ W) ++ [.rm (.part d 0)]) st) (.pfile d)
             = some (.raw data) := by
-          rw [run_append]
-          simp only [run]
-          rw [get_apply_of_not_written (by simp [writes]), run_append, run_append]
+          rw [run_append, get_run_of_not_written (es := [Effect.rm (.part d 0)])
+            (by intro e he; simp at he; subst he; simp [writes]), run_append, run_append]
           subst hW
           rw [pfile_not_written_by_rec, run_pwrites _ _ _ _ _ h0,
             overlayAll_eq _ _ _ (by rw [length_resize]; omega), hchunk, hoff, Nat.zero_add, hpre, hbody']
@@ -1289,7 +1288,7 @@ theorem downloads_spec {hash : Bytes → Digest} (env : Env) (henv : env.hash = 
               · exact this.2.1.present_mono (hd.2.2.1 hok1)
               · exact this.2.2 hok d' hd'
         · simp only [hok1, Bool.false_eq_true, ↓reduceIte]
-          exact ⟨hd.1, hd.2.1, fun h => absurd h hok1⟩
+          exact ⟨hd.1, hd.2.1, by intro h; simp_all⟩
 
 theorem verify_effs_nil (env : Env) (ds : List Digest) (st : Store) (h : BlobInv env.hash st) :
     (verify env ds st).effs = [] := by
@@ -1422,11 +1421,144 @@ theorem manOnly_writeManifest (env : Env) (k : Nat) (n : Name) (m : Man) :
     simp at he
     rcases he with rfl | rfl <;> simp [writes] at hw <;> simp [hw]
 
-theorem manOnly_download (N : List Name) (env : Env) (k : Nat) (d : Digest) (data : Bytes) (st : Store)
-    (hfoot : WritesIn (DlFoot d) (download env k d data st).effs) :
+theorem dlFoot_mv (d : Digest) : WritesIn (DlFoot d) [Effect.mv (.pfile d) (.blob d)] := by
+  intro e he q hq
+  simp at he; subst he
+  simp [writes] at hq
+  rcases hq with rfl | rfl
+  · exact Or.inl rfl
+  · exact Or.inr (Or.inr (Or.inl rfl))
+
+/-- a download of `d` writes only d's own files and temp files (any store, any variant) -/
+theorem download_writesIn (env : Env) (k : Nat) (d : Digest) (data : Bytes) (st : Store) :
+    WritesIn (DlFoot d) (download env k d data st).effs := by
+  unfold download
+  dsimp only
+  cases hR : get st (.part d 0) with
+  | none =>
+    simp only [hR]
+    by_cases hz : data.length = 0
+    · simp only [hz, ↓reduceIte]
+      exact writesIn_append (dlFoot_touch_ftr d 0) (dlFoot_mv d)
+    · simp only [hz, ↓reduceIte]
+      exact writesIn_append (writesIn_append (writesIn_append (writesIn_append (writesIn_append
+        (dlFoot_writePart env k d _) (dlFoot_touch_ftr d _)) (dlFoot_pwrites d 0 _))
+        (dlFoot_writePart env (k + 1) d _)) (dlFoot_rm d)) (dlFoot_mv d)
+  | some c =>
+    cases c with
+    | raw b => simp only [hR]; intro e he; cases he
+    | man m => simp only [hR]; intro e he; cases he
+    | prec r =>
+      simp only [hR]
+      by_cases hc : r.completed = r.size
+      · simp only [hc, ↓reduceIte, List.append_nil]
+        exact writesIn_append (writesIn_append (dlFoot_touch_ftr d _) (dlFoot_rm d)) (dlFoot_mv d)
+      · simp only [hc, ↓reduceIte]
+        exact writesIn_append (writesIn_append (writesIn_append (dlFoot_touch_ftr d _)
+          (writesIn_append (dlFoot_pwrites d _ _) (dlFoot_writePart env k d _))) (dlFoot_rm d)) (dlFoot_mv d)
+
+theorem manOnly_download (N : List Name) (env : Env) (k : Nat) (d : Digest) (data : Bytes) (st : Store) :
     ManOnly N (download env k d data st).effs := by
-  apply manOnly_of_writesIn hfoot
+  apply manOnly_of_writesIn (download_writesIn env k d data st)
   intro n' h
   rcases h with h | h | h | ⟨_, h⟩ <;> cases h
+
+theorem manOnly_downloads (N : List Name) (env : Env) (reg : Digest → Option Bytes) (k : Nat) (ds : List Digest)
+    (st : Store) : ManOnly N (downloads env reg k ds st).1.effs := by
+  induction ds generalizing st k with
+  | nil => exact manOnly_nil N
+  | cons d rest ih =>
+    unfold downloads
+    split
+    · exact ih _ st
+    · split
+      · exact manOnly_nil N
+      · rename_i data _
+        dsimp only
+        split
+        · cases hX : downloads env reg (k + 2) rest (run (download env k d data st).effs st) with
+          | mk b v =>
+            have := ih (k + 2) (run (download env k d data st).effs st)
+            rw [hX] at this
+            exact manOnly_append (manOnly_download N env k d data st) this
+        · exact manOnly_download N env k d data st
+
+theorem manOnly_verify (N : List Name) (env : Env) (ds : List Digest) (st : Store) :
+    ManOnly N (verify env ds st).effs := by
+  induction ds with
+  | nil => exact manOnly_nil N
+  | cons d rest ih =>
+    unfold verify
+    split
+    · split
+      · exact ih
+      · intro e he n' hw; simp at he; subst he; simp [writes] at hw
+    · exact manOnly_nil N
+
+theorem manOnly_deleteUnused (N : List Name) (env : Env) (cand : List Digest) (st : Store) :
+    ManOnly N (deleteUnused env cand st).effs := by
+  intro e he n' hw
+  unfold deleteUnused at he
+  obtain ⟨d, _, rfl⟩ := List.mem_map.mp he
+  simp [writes] at hw
+
+theorem manOnly_exec (env : Env) (op : Op) (st : Store) : ManOnly op.involved (op.exec env st).effs := by
+  cases op with
+  | upload k d body =>
+    simp only [Op.exec, Op.involved]
+    unfold upload; split
+    · exact manOnly_nil _
+    · exact manOnly_newLayer _ env k _ st
+  | create n ups file datas cfg =>
+    simp only [Op.exec, Op.involved, create]
+    apply manOnly_andThen (manOnly_uploads _ env 0 ups st)
+    intro st'
+    unfold createHandler
+    dsimp only
+    split
+    · exact manOnly_nil _
+    · apply manOnly_andThen (manOnly_newLayers _ env _ _ st')
+      intro st2
+      apply manOnly_andThen (manOnly_writeManifest env _ n _)
+      intro st3
+      split
+      · exact manOnly_removeLayers _ _ _
+      · exact manOnly_nil _
+  | copy src dst =>
+    simp only [Op.exec, Op.involved]
+    unfold copy
+    split
+    · exact manOnly_nil _
+    · split
+      · exact manOnly_nil _
+      · split
+        · exact manOnly_writeAtomic 0 dst _
+        · intro e he n' hw
+          simp at he
+          rcases he with rfl | rfl <;> simp [writes] at hw <;> simp [hw]
+  | delete n =>
+    simp only [Op.exec, Op.involved]
+    unfold delete
+    split
+    · exact manOnly_nil _
+    · apply manOnly_andThen
+      · intro e he n' hw; simp at he; subst he; simp [writes] at hw; simp [hw]
+      · intro st'; exact manOnly_removeLayers _ _ _
+  | pull reg n m =>
+    simp only [Op.exec, Op.involved]
+    unfold pull
+    dsimp only
+    cases hX : downloads env reg 0 (m.all.map Layer.digest) st with
+    | mk dl fresh =>
+      simp only
+      have := manOnly_downloads [n] env reg 0 (m.all.map Layer.digest) st
+      rw [hX] at this
+      apply manOnly_andThen this
+      intro st1
+      apply manOnly_andThen (manOnly_verify _ env fresh st1)
+      intro st2
+      apply manOnly_andThen (manOnly_writeManifest env _ n m)
+      intro st3
+      exact manOnly_deleteUnused _ env _ st3
 
 end OllamaVerif.StoreCrash
